@@ -33,6 +33,24 @@ A loop inside the body of another loop takes what follows it as a continuation p
 `kxN_` over its loop state (_nested_exit); loops are numbered in source order, outer first.
 A call argument of type ("literal", "<source text>", "<coq term>") must be exactly that source
 text (regex flags such as `re.MULTILINE | re.DOTALL`) and is rendered by the Coq term.
+Also: `for i, x in enumerate(IT[, start=K])` over a shared iterator variable (_enum_shared); `if x:` / `a if x else b` /
+`x and P(x)` on an optional str/list VARIABLE narrow it where the test is true (tr_opt_truthy); a dict with str keys
+as an association list — `{}`, `d[k] = v`, methods through the spec (type ("dict", "str", V)); `del x` of a local;
+`x = list(recv.m(..))` for a receiver-mutating method rendered as returning a list, with overloads chosen by their
+("literal", …) arguments; a generator expression as a direct argument of a spec-rendered call (eager, must be pure);
+an exception message that translates as a pure expression.
+Method mode, objects that serve attributes themselves: `try: B except (E..): H` (FunTr._try: H runs on the state that
+`MErr e st` carries; B binds no locals; kinds by the CATCHES table, undecidable kinds end in OutOfFuel); attributes served
+by __getattr__/__setattr__ (Module.attr_hooks: `self.x` / `self.x = e` are the calls they stand for); methods that call
+each other in a cycle as one mutual Fixpoint on fuel (Fun.rec_group/rec_fuel); hand-written primitives on the object's
+state (Call.stateprim: setattr(self, name, v), super().__setattr__); injections into a sum type of dynamic values
+(Module.coercions); `s + t` with an optional str operand (tr_add_opt: TypeError on None); `"lit %s" % s`; `s in <constant
+list of str>`; truth value of an optional str/list state attribute (tr_opt_nonempty); with Fun.narrow, `if not m: raise`
+on an optional opaque value narrows m.
+Opaque objects (("coq", T)) through primitives of the spec: truth value "<T>.__bool__", `o[k]` "<T>.__getitem__", `o[k] = v`
+"<T>.__setitem__" (receiver-mutating), `for x in o` "<T>.__iter__" (a list), `{}` where T is expected: consts["{}"];
+`t[k]` for a tuple type and a literal k; `"..%s..%s.." % (a, b)` with str arguments; Fun.join_defines (opt-in): a variable first
+assigned on every path through an if/else is defined after it; regex_text resolves `re.compile(NAME + "literal")`.
 """
 import ast
 import os
@@ -47,7 +65,8 @@ ERR = {"ValueError": "ValueError", "KeyError": "KeyError", "TypeError": "TypeErr
        "MachineReadableFormatError": "FormatError", "NotMachineReadableError": "FormatError",
        "AssertionError": "AssertionError", "NotImplementedError": "NotImplementedError",
        "StopIteration": "StopIteration", "ArError": "DebError", "DebError": "DebError", "IOError": "IOError",
-       "OSError": "IOError", "ChangelogParseError": "ParseError"}
+       "OSError": "IOError", "ChangelogParseError": "ParseError",
+       "EOFError": "OtherError"}     # no kind of its own in Lib/Base.err: harness.core.err_kind reports it as OtherError too
 
 
 def ty_coq(t):
@@ -62,6 +81,10 @@ def ty_coq(t):
         return "(" + " * ".join(ty_coq(x) for x in t[1:]) + ")%type"
     if k == "coq":
         return t[1]
+    if k == "dict" and len(t) == 3 and t[1] == "str":
+        # a dict with str keys as an association list in insertion order: only `{}`, d[k] = v (tr_dict_set) and
+        # the methods the spec renders ("<dict>.get" -> tr_dict_get) are translated; iteration is not
+        return "(list (str * %s))" % ty_coq(t[2])
     _bad("type %r" % (t,))
 
 
@@ -99,7 +122,18 @@ def coerce(text, frm, to, node=None):
         return "None"
     if frm == "nil" and (to in ("str", "strbuf") or (isinstance(to, tuple) and to[0] in ("list", "iter"))):
         return "[]"
+    # injections given by the module spec (Module.coercions), e.g. str -> a sum type of dynamic values
+    for f_, t_, tmpl in _COERCIONS:
+        if same_repr(frm, f_) and same_repr(to, t_):
+            return tmpl % text if "%s" in tmpl else tmpl
+    if isinstance(to, tuple) and to[0] == "option" and frm not in ("none", "nil"):
+        for f_, t_, tmpl in _COERCIONS:
+            if same_repr(frm, f_) and same_repr(to[1], t_) and "%s" in tmpl:
+                return "(Some %s)" % (tmpl % text)
     _bad("cannot use a value of type %r where %r is expected (%s)" % (frm, to, text[:60]), node)
+
+
+_COERCIONS = []     # Module.coercions of the module being translated (set by translate_module for its duration)
 
 
 class Call:
@@ -113,6 +147,12 @@ class Call:
     # callee propagates with the state the callee reached.  Arguments left out take the defaults that the callee's
     # `def` has in the source now (constants only).
     selfmethod = None
+    # stateprim (set after construction, METHOD MODE only): a HAND-WRITTEN primitive with the calling convention of a
+    # translated method: `coq <ghost…> <state variables…> <args…> : mres ret (state tuple)`.  Statements only
+    # (`x = f(a..)` / `f(a..)`), every argument must be given; the returned state replaces the caller's state
+    # variables, an exception propagates with the state the primitive returns.  For operations on the object
+    # itself that are not methods of the translated class: `setattr(self, name, v)`, `super().__setattr__(..)`.
+    stateprim = False
 
     def __init__(self, coq, args, ret, monadic=False, mutates=False):
         self.coq, self.args, self.ret, self.monadic = coq, list(args), ret, monadic
@@ -142,9 +182,30 @@ class Fun:
         # result_var (opt-in): the function returns None after mutating this PARAMETER in place; the translation
         # returns its final value instead (ret = its type).  The parameter must never be rebound.
         self.result_var = None
+        # join_defines (opt-in): a variable that is not defined before an if/else and is assigned on EVERY path that
+        # reaches the end of the if/else is defined afterwards (it becomes a parameter of the join point).  Without
+        # it such a variable is not visible after the if/else (a later use fails closed).
+        self.join_defines = False
+        # rec_group / rec_fuel (opt-in, METHOD MODE, no loops): methods that call each other in a cycle
+        # (`self.a()` in b, `self.b()` in a) carry the same rec_group name and stand NEXT TO EACH OTHER in Module.funs;
+        # they become ONE mutual `Fixpoint … with …` on an explicit leading `fuel : nat` (`OutOfFuel` at 0; a call
+        # inside the group passes the decreased fuel).  rec_fuel: the Coq nat expression passed by callers outside
+        # the group; the tie lemma proves it suffices.
+        self.rec_group = None
+        self.rec_fuel = None
 
 
 class Module:
+    # attr_hooks: {"self.<name>": (getter source text or None, setter source text or None)} — an attribute that is
+    # NOT stored under its own name but served by the class's __getattr__/__setattr__: a read `self.<name>` is
+    # translated as the call `<getter>("<name>")`, an assignment `self.<name> = e` as the statement
+    # `<setter>("<name>", e)`; both are then rendered through `calls` like any other call.  (That normal lookup of
+    # <name> fails, so that Python really calls __getattr__, is the spec author's claim.)
+    attr_hooks = {}
+    # coercions: [(from type, to type, "Coq template with one %s")] injections applied where a value of the first type
+    # is used at the second (dynamic values: str -> a sum type); ("none", T, "C") renders None at T by the constant C
+    coercions = ()
+
     def __init__(self, name, rel, funs, calls=None, imports=(), regexes=(), consts=None):
         self.name, self.rel, self.funs = name, rel, list(funs)
         self.calls = dict(calls or {})
@@ -208,6 +269,22 @@ def regex_text(tree, qual):
                 val = lit.value.encode("utf-8") if enc else lit.value
                 v = ast.copy_location(ast.Call(func=v.func, args=[ast.Constant(value=val)] + v.args[1:],
                                                keywords=v.keywords), v)
+        if isinstance(a0, ast.BinOp) and not enc:
+            # re.compile(NAME + <literal> …): a concatenation of str literals and of names bound (exactly once) to a
+            # str literal in the SAME class / at module level (e.g. Deb822._single = re.compile(_key_part + r"…"))
+            def static_str(x):
+                if isinstance(x, ast.Constant) and isinstance(x.value, str):
+                    return x.value
+                if isinstance(x, ast.BinOp) and isinstance(x.op, ast.Add):
+                    return static_str(x.left) + static_str(x.right)
+                if isinstance(x, ast.Name):
+                    scope = qual.rsplit(".", 1)[0] + "." if "." in qual else ""
+                    lit = find_value(tree, scope + x.id)
+                    if isinstance(lit, ast.Constant) and isinstance(lit.value, str):
+                        return lit.value
+                _bad("%s: the pattern is not a concatenation of str literals / names of str literals" % qual)
+            v = ast.copy_location(ast.Call(func=v.func, args=[ast.Constant(value=static_str(a0))] + v.args[1:],
+                                           keywords=v.keywords), v)
     if not (isinstance(v, ast.Call) and ast.unparse(v.func) == "re.compile" and v.args
             and isinstance(v.args[0], ast.Constant) and isinstance(v.args[0].value, (str, bytes))):
         _bad("%s is not re.compile(<literal>)" % qual)
@@ -300,11 +377,16 @@ class FunTr:
             return "(negb (tr_is_nil %s))" % e.text
         if isinstance(t, tuple) and t[0] == "option":
             inner = t[1]
-            if inner in ("str", "strbuf", "Z", "bool", "char") or (isinstance(inner, tuple) and inner[0] in ("list", "iter", "option")):
+            if inner in ("str", "strbuf", "Z", "bool", "char") or (isinstance(inner, tuple) and inner[0] in ("list", "iter", "option", "dict")):
                 # Some "" / Some 0 / Some [] are falsy in Python: `if x:` on such a value is not `x is not None`
                 _bad("truth value of an optional %r (None and the empty/zero value are both falsy); test `is None` "
                      "explicitly or narrow first" % (inner,), node)
             return "(tr_is_some %s)" % e.text
+        if isinstance(t, tuple) and t[0] == "coq":
+            # an opaque value: its truth value is a primitive of the spec, key "<type>.__bool__" (pure, one argument)
+            g = self.mod.calls.get("<%s>.__bool__" % t[1])
+            if isinstance(g, Call) and len(g.args) == 1 and not g.monadic and not g.mutates and g.ret == "bool":
+                return "(%s %s)" % (g.coq, coerce(e.text, t, g.args[0], node))
         _bad("truth value of type %r is not supported" % (t,), node)
 
     def vars_of(self, env):
@@ -344,9 +426,9 @@ class FunTr:
                 if r.pre:
                     t = self.tmp()
                     return E([(t, "match %s with None => Ok %s | Some %s => %s end" % (
-                        cname(name), short, cname(name), wrap(r.pre, "Ok %s" % r.text)))], t, "bool")
+                        self._narrow_scrut(n.values[0], name), short, cname(name), wrap(r.pre, "Ok %s" % r.text)))], t, "bool")
                 return E([], "(match %s with None => %s | Some %s => %s end)" % (
-                    cname(name), short, cname(name), r.text), "bool")
+                    self._narrow_scrut(n.values[0], name), short, cname(name), r.text), "bool")
             op = "&&" if isinstance(n.op, ast.And) else "||"
             if all(not p.pre for p in parts[1:]):
                 return E(parts[0].pre, "(" + (" %s " % op).join(p.text for p in parts) + ")", "bool")
@@ -364,6 +446,10 @@ class FunTr:
             c = self.cond(n.operand, env)
             return E(c.pre, "(negb %s)" % c.text, "bool")
         e = self.expr(n, env)
+        if isinstance(n, ast.Attribute) and ast.unparse(n) in self.stattr and isinstance(e.ty, tuple) \
+                and e.ty[0] == "option" and (e.ty[1] == "str" or (isinstance(e.ty[1], tuple) and e.ty[1][0] == "list")):
+            # truth value of an optional str/list STATE ATTRIBUTE (never narrowed): None and the empty value are falsy
+            return E(e.pre, "(tr_opt_nonempty %s)" % e.text, "bool")
         return E(e.pre, self.truthy(e, n), "bool")
 
     def _const(self, n, want):
@@ -408,6 +494,9 @@ class FunTr:
             if key in self.mod.consts:
                 t, ty = self.mod.consts[key]
                 return E([], t, ty)
+            if self.mod.attr_hooks.get(key, (None, None))[0] and isinstance(n.ctx, ast.Load):
+                # an attribute served by __getattr__ (Module.attr_hooks): the read IS the call <getter>("<name>")
+                return self._call(self._hook_call(self.mod.attr_hooks[key][0], n, []), env, want)
             # field read on a typed receiver: spec key "<type>.@field" -> a one-argument getter
             try:
                 recv = self.expr(n.value, env)
@@ -436,6 +525,14 @@ class FunTr:
             ety = elt or es[0].ty
             return E(sum((e.pre for e in es), []),
                      "[" + "; ".join(coerce(e.text, e.ty, ety, x) for e, x in zip(es, n.elts)) + "]", ("list", ety))
+        if isinstance(n, ast.Dict):
+            if not n.keys and isinstance(want, tuple) and want[0] == "coq" and self.mod.consts.get("{}", (None, None))[1] == want:
+                # the empty dict literal where an opaque type is expected: the spec's constant "{}" of that type
+                return E([], self.mod.consts["{}"][0], want)
+            if n.keys or not (isinstance(want, tuple) and want[0] == "dict"):
+                _bad("only the empty dict literal, for a variable declared (\"dict\", \"str\", V)", n)
+            ty_coq(want)
+            return E([], "[]", want)
         if isinstance(n, ast.UnaryOp):
             if isinstance(n.op, ast.Not):
                 return self.cond(n, env)
@@ -471,6 +568,24 @@ class FunTr:
                          "(tr_slice %s %s %s)" % (base.text, "(Some %s)" % lo.text if lo else "None",
                                                   "(Some %s)" % hi.text if hi else "None"),
                          "str" if base.ty == "strbuf" else base.ty)
+            if isinstance(base.ty, tuple) and base.ty[0] == "tuple" and isinstance(n.slice, ast.Constant) \
+                    and type(n.slice.value) is int and -(len(base.ty) - 1) <= n.slice.value < len(base.ty) - 1:
+                # t[k] for a tuple of statically known arity and a literal index in range: a projection (cannot raise)
+                ar = len(base.ty) - 1
+                kk = n.slice.value % ar
+                ps = ["pj%d_" % j for j in range(ar)]
+                return E(base.pre, "(let '(%s) := %s in %s)" % (", ".join(ps), base.text, ps[kk]), base.ty[1 + kk])
+            if isinstance(base.ty, tuple) and base.ty[0] == "coq":
+                # obj[k] on an opaque object: the spec's primitive "<type>.__getitem__" (two arguments, not mutating)
+                g = self.mod.calls.get("<%s>.__getitem__" % base.ty[1])
+                if not (isinstance(g, Call) and len(g.args) == 2 and not g.mutates):
+                    _bad("subscript of %r needs \"<%s>.__getitem__\" of two arguments" % (base.ty, base.ty[1]), n)
+                kx = self.expr(n.slice, env, g.args[1])
+                app = "%s %s %s" % (g.coq, coerce(base.text, base.ty, g.args[0], n), coerce(kx.text, kx.ty, g.args[1], n))
+                if g.monadic:
+                    t = self.tmp()
+                    return E(base.pre + kx.pre + [(t, app)], t, g.ret)
+                return E(base.pre + kx.pre, "(%s)" % app, g.ret)
             idx = self.expr(n.slice, env, "Z")
             if idx.ty != "Z":
                 _bad("index of type %r" % (idx.ty,), n)
@@ -540,6 +655,21 @@ class FunTr:
         _bad("cannot iterate over %r" % (t,), node)
 
     def _binop(self, n, env, want):
+        if isinstance(n.op, ast.Mod) and isinstance(n.left, ast.Constant) and isinstance(n.left.value, str) \
+                and isinstance(n.right, ast.Tuple) and n.right.elts:
+            # "<literal whose only directives are %s>" % (<str>, <str>, …), as many as directives: each %s of a str
+            # is the str itself; the arguments are evaluated left to right; the formatting cannot raise
+            parts = n.left.value.split("%s")
+            if any("%" in p for p in parts) or len(parts) - 1 != len(n.right.elts):
+                _bad("%-format: only the directive %s, one per element of the tuple", n)
+            es = [self.expr(x, env, "str") for x in n.right.elts]
+            if any(e.ty != "str" for e in es):
+                _bad("%%s of %r (only str arguments)" % ([e.ty for e in es],), n)
+            cps = lambda s: "[" + "; ".join("%d" % ord(c) for c in s) + "]%N"   # noqa: E731
+            pieces = [cps(parts[0])]
+            for e, p in zip(es, parts[1:]):
+                pieces += [e.text, cps(p)]
+            return E(sum((e.pre for e in es), []), "(" + " ++ ".join(pieces) + ")", "str")
         a = self.expr(n.left, env)
         b = self.expr(n.right, env, a.ty if a.ty in ("Z",) else None)
         pre = a.pre + b.pre
@@ -559,6 +689,18 @@ class FunTr:
                 return E(pre, "(%s ++ %s)" % (a.text, b.text), a.ty)
             if a.ty in ("str", "char") and b.ty in ("str", "char"):
                 return E(pre, "(%s ++ %s)" % (coerce(a.text, a.ty, "str"), coerce(b.text, b.ty, "str")), "str")
+            ostr = ("option", "str")
+            if ostr in (a.ty, b.ty) and all(t in (ostr, "str") for t in (a.ty, b.ty)):
+                # str + None / None + str: TypeError, after both operands have been evaluated
+                t = self.tmp()
+                return E(pre + [(t, "tr_add_opt %s %s" % (coerce(a.text, a.ty, ostr, n), coerce(b.text, b.ty, ostr, n)))],
+                         t, "str")
+        if isinstance(n.op, ast.Mod) and isinstance(n.left, ast.Constant) and isinstance(n.left.value, str) \
+                and b.ty == "str" and n.left.value.count("%") == 1 and n.left.value.count("%s") == 1:
+            # "<literal with exactly one %s and no other %>" % <a str>: substitution (cannot raise)
+            lit = n.left.value
+            cps = lambda s: "[" + "; ".join("%d" % ord(c) for c in s) + "]%N"   # noqa: E731
+            return E(pre, "(%s ++ %s ++ %s)" % (cps(lit[:lit.index("%s")]), b.text, cps(lit[lit.index("%s") + 2:])), "str")
         _bad("operator %s on %r and %r" % (type(n.op).__name__, a.ty, b.ty), n)
 
     def _compare(self, n, env):
@@ -603,6 +745,9 @@ class FunTr:
                         and isinstance(n.left.value, str) and len(n.left.value) == 1:
                     # a one-character literal: substring membership is character membership
                     txt = "(tr_char_in %d%%N %s)" % (ord(n.left.value), b.text)
+                elif a.ty == "str" and b.ty == ("list", "str"):
+                    # a str in a list/tuple of str held in a constant of the spec (e.g. a class-level tuple)
+                    txt = "(tr_str_in %s %s)" % (a.text, b.text)
                 else:
                     _bad("membership of %r in %r" % (a.ty, b.ty), n)
             return E(a.pre, "(negb %s)" % txt if neg else txt, "bool")
@@ -638,7 +783,30 @@ class FunTr:
             #  method call on a possibly-None one goes through tr_unwrap)
             if nm is not None and nm in env and isinstance(env[nm], tuple) and env[nm][0] == "option":
                 return nm, isinstance(test.ops[0], ast.Is)
+        # truth value of an optional str / list VARIABLE: `x` / `not x`.  None and the empty value are both falsy;
+        # where the test is true x is not None (and not empty): it has its inner type there (_narrow_scrut)
+        neg = isinstance(test, ast.UnaryOp) and isinstance(test.op, ast.Not)
+        v = test.operand if neg else test
+        if isinstance(v, ast.Name) and v.id in env and isinstance(env[v.id], tuple) and env[v.id][0] == "option" \
+                and (env[v.id][1] == "str" or (isinstance(env[v.id][1], tuple) and env[v.id][1][0] == "list")):
+            return v.id, neg
+        # (opt-in, Fun.narrow) truth value of an optional OPAQUE value (a match object, …) held in a variable:
+        # `m` / `not m` is exactly `m is not None` / `m is None` (truthy: tr_is_some); m has its inner type where true
+        if self.fun.narrow and isinstance(v, ast.Name) and v.id in env and self._opaque_opt(env[v.id]):
+            return v.id, neg
         return None
+
+    @staticmethod
+    def _opaque_opt(t):
+        return isinstance(t, tuple) and t[0] == "option" and isinstance(t[1], tuple) and t[1][0] in ("coq", "tuple")
+
+    def _narrow_scrut(self, test, name):
+        """The scrutinee of the None/Some match that renders a narrowing test (_narrow): the variable itself for
+        `x is [not] None`; for the truth value of an optional str/list, tr_opt_truthy x (None for None AND for the
+        empty value, as in Python)."""
+        if isinstance(test, ast.Compare) or (self.fun.narrow and self._opaque_opt(self.decl.get(name))):
+            return cname(name)
+        return "(tr_opt_truthy %s)" % cname(name)
 
     def _ifexp(self, n, env, want):
         nar = self._narrow(n.test, env)
@@ -657,9 +825,10 @@ class FunTr:
             if e_none.pre or e_some.pre:
                 t = self.tmp()
                 m = "match %s with None => %s | Some %s => %s end" % (
-                    cname(name), wrap(e_none.pre, "Ok %s" % t_none), cname(name), wrap(e_some.pre, "Ok %s" % t_some))
+                    self._narrow_scrut(n.test, name), wrap(e_none.pre, "Ok %s" % t_none), cname(name), wrap(e_some.pre, "Ok %s" % t_some))
                 return E([(t, m)], t, ty)
-            return E([], "(match %s with None => %s | Some %s => %s end)" % (cname(name), t_none, cname(name), t_some), ty)
+            return E([], "(match %s with None => %s | Some %s => %s end)" % (
+                self._narrow_scrut(n.test, name), t_none, cname(name), t_some), ty)
         c = self.cond(n.test, env)
         a = self.expr(n.body, env, want)
         b = self.expr(n.orelse, env, want)
@@ -686,6 +855,14 @@ class FunTr:
             slots.append(k.value)
         return slots
 
+    def _arg(self, a, env, w):
+        """An argument of a call rendered through the spec.  A generator expression written directly as the argument
+        is consumed by the callee alone: it is evaluated eagerly, as a list — unobservable only if producing its
+        elements is pure (no exception, no effect), which is required."""
+        if isinstance(a, ast.GeneratorExp):
+            return self.pure(ast.copy_location(ast.ListComp(elt=a.elt, generators=a.generators), a), env, w)
+        return self.expr(a, env, w)
+
     def _call(self, n, env, want):
         key = ast.unparse(n.func)
         if n.keywords and key not in self.mod.calls:
@@ -693,7 +870,7 @@ class FunTr:
         if key in self.mod.calls:
             alts = self.mod.calls[key]
             alts = alts if isinstance(alts, (list, tuple)) else [alts]
-            if any(getattr(a_, "selfmethod", None) for a_ in alts):
+            if any(getattr(a_, "selfmethod", None) or getattr(a_, "stateprim", False) for a_ in alts):
                 _bad("a call of a method of the same object (%s) is only supported as a statement "
                      "`x = self.m(..)` / `self.m(..)`" % key, n)
             c = es = texts = None
@@ -708,7 +885,7 @@ class FunTr:
                     errs.append("%s expects %d arguments" % (key, len(cand.args)))
                     continue
                 try:
-                    es = [self.expr(a, env, w) for a, w in zip(n_args, cand.args)]
+                    es = [self._arg(a, env, w) for a, w in zip(n_args, cand.args)]
                     texts = [coerce(e.text, e.ty, w, n) for e, w in zip(es, cand.args)]
                     c = cand
                     break
@@ -745,7 +922,7 @@ class FunTr:
                             errs.append("arity")
                             continue
                         try:
-                            es = [recv] + [self.expr(a, env, w) for a, w in zip(n.args, cand.args[1:])]
+                            es = [recv] + [self._arg(a, env, w) for a, w in zip(n.args, cand.args[1:])]
                             texts = [coerce(e.text, e.ty, w, n) for e, w in zip(es, cand.args)]
                         except ExtractError as ex:
                             errs.append(str(ex))
@@ -811,8 +988,15 @@ class FunTr:
                                 add(m.id)
                             if isinstance(m, ast.Attribute) and ast.unparse(m) in self.stattr:
                                 add(self.stattr[ast.unparse(m)])
+                            if isinstance(m, ast.Attribute) and self.mod.attr_hooks.get(ast.unparse(m), (None, None))[1]:
+                                for _, v_, _ in self.fun.state:      # served by __setattr__: may change every attribute
+                                    add(v_)
                     if isinstance(n, ast.For) and isinstance(n.iter, ast.Name):
                         add(n.iter.id)          # a shared iterator is advanced
+                    if isinstance(n, ast.For) and isinstance(n.iter, ast.Call) and ast.unparse(n.iter.func) == "enumerate" \
+                            and len(n.iter.args) == 1 and isinstance(n.iter.args[0], ast.Name) \
+                            and isinstance(self.decl.get(n.iter.args[0].id), tuple) and self.decl[n.iter.args[0].id][0] == "iter":
+                        add(n.iter.args[0].id)  # … also through enumerate (_enum_shared)
                 if isinstance(n, ast.Call) and isinstance(n.func, ast.Attribute) and isinstance(n.func.value, ast.Name) \
                         and n.func.attr in ("append", "pop", "write", "extend", "insert"):
                     add(n.func.value.id)
@@ -847,7 +1031,7 @@ class FunTr:
         ty = self.declared(name, node)
         env2 = dict(env)
         if self.fun.narrow and isinstance(ty, tuple) and ty[0] == "option" and e.ty not in ("none", "nil") \
-                and same_repr(e.ty, ty[1]):
+                and same_repr(e.ty, ty[1]) and name not in self.stattr.values():     # (state attributes: never narrowed)
             env2[name] = ty[1]          # flow typing: the variable is known not to be None from here on
             return "let %s := %s in " % (cname(name), e.text), env2
         env2[name] = ty
@@ -910,6 +1094,14 @@ class FunTr:
             return nxt(env)
         if isinstance(s, ast.Pass):
             return nxt(env)
+        if isinstance(s, ast.Delete):
+            # `del x` of a local that is defined here: the name is undefined from here on (a later use fails closed)
+            env2 = dict(env)
+            for t in s.targets:
+                if not (isinstance(t, ast.Name) and t.id in env and t.id in self.fun.locals):
+                    _bad("del of anything but a defined local variable", s)
+                del env2[t.id]
+            return nxt(env2)
         if isinstance(s, ast.FunctionDef):
             # a nested helper: must be translated separately (its name must be a key of the spec's calls)
             if s.name not in self.mod.calls:
@@ -939,9 +1131,16 @@ class FunTr:
             # the message expression is evaluated first; only %-formatting of names/constants is accepted (cannot raise)
             if isinstance(exc, ast.Call):
                 for a in exc.args:
-                    for m in ast.walk(a):
-                        if isinstance(m, (ast.Call, ast.Subscript, ast.Attribute)):
+                    if any(isinstance(m, (ast.Call, ast.Subscript, ast.Attribute)) for m in ast.walk(a)):
+                        # … or a message that translates as a PURE expression (every call in it is rendered by the
+                        # spec as a primitive that cannot raise, e.g. str(<int>)); its value is discarded
+                        saved_tmp = self.ntmp
+                        try:
+                            self.pure(a, env)
+                        except ExtractError:
                             _bad("exception message too complex to be known not to raise", s)
+                        finally:
+                            self.ntmp = saved_tmp
             return self.err(ERR[key])
         if isinstance(s, ast.Continue):
             if not ctx.get("cont"):
@@ -955,6 +1154,11 @@ class FunTr:
             if len(s.targets) != 1:
                 _bad("multiple assignment targets", s)
             t = s.targets[0]
+            if isinstance(t, ast.Attribute) and self.mod.attr_hooks.get(ast.unparse(t), (None, None))[1]:
+                # an attribute served by __setattr__ (Module.attr_hooks): the assignment IS the statement
+                # <setter>("<name>", value)
+                hk = ast.copy_location(ast.Expr(value=self._hook_call(self.mod.attr_hooks[ast.unparse(t)][1], t, [s.value])), s)
+                return self.block([hk] + list(rest), env, k, ctx)
             if isinstance(t, ast.Attribute) and ast.unparse(t) in self.stattr:
                 t = ast.copy_location(ast.Name(id=self.stattr[ast.unparse(t)], ctx=ast.Store()), t)
             sc = self._selfcall(s.value)
@@ -965,6 +1169,13 @@ class FunTr:
             mc = self._mutating(s.value, env)
             if mc is not None and isinstance(t, ast.Name):
                 return self._mut_stmt(mc, t.id, env, nxt, s)
+            # x = list(recv.m(..)) for a receiver-mutating method whose rendering returns a list: list() consumes
+            # the returned iterable completely, here, so all of m's effect on the receiver happens at this statement
+            if isinstance(t, ast.Name) and isinstance(s.value, ast.Call) and ast.unparse(s.value.func) == "list" \
+                    and "list" not in self.mod.calls and len(s.value.args) == 1 and not s.value.keywords:
+                mc = self._mutating(s.value.args[0], env)
+                if mc is not None and isinstance(mc[0].ret, tuple) and mc[0].ret[0] == "list":
+                    return self._mut_stmt(mc, t.id, env, nxt, s)
             # x = l.pop(0)
             if isinstance(t, ast.Name) and isinstance(s.value, ast.Call) and isinstance(s.value.func, ast.Attribute) \
                     and s.value.func.attr == "pop" and isinstance(s.value.func.value, ast.Name):
@@ -1003,6 +1214,45 @@ class FunTr:
             if isinstance(t, ast.Subscript) and isinstance(t.value, ast.Name) and t.value.id in env:
                 obj = t.value.id
                 oty = env[obj]
+                if isinstance(oty, tuple) and oty[0] == "dict" and not isinstance(t.slice, ast.Slice):
+                    # d[k] = v on a dict with str keys (association list): Python evaluates v, then d, then k;
+                    # str keys are hashable, so the store itself cannot raise
+                    ty_coq(oty)
+                    v = self.expr(s.value, env, oty[2])
+                    kx = self.expr(t.slice, env, "str")
+                    return self.swrap(v.pre + kx.pre, "(let %s := tr_dict_set %s %s %s in %s)" % (
+                        cname(obj), cname(obj), coerce(kx.text, kx.ty, "str", s), coerce(v.text, v.ty, oty[2], s), nxt(env)))
+                if isinstance(oty, tuple) and oty[0] == "coq" and not isinstance(t.slice, ast.Slice):
+                    # obj[k] = v on an opaque object (a variable or, in method mode, a state variable): the spec's
+                    # receiver-mutating primitive "<type>.__setitem__" : obj -> k -> v -> (unit * obj') [result of it].
+                    # Python evaluates v, then obj, then k, then calls __setitem__.
+                    cand = self.mod.calls.get("<%s>.__setitem__" % oty[1])
+                    if isinstance(cand, Call) and cand.selfmethod:
+                        # … or, when obj IS the object of a method in METHOD MODE (its one state variable, source text
+                        # = variable name, e.g. state=[("self", "self", T)]) and "<T>.__setitem__" is a translated method
+                        # of the same module (Call.selfmethod): the call self.__setitem__(k, v) on the current state.
+                        # k and v must be pure (Python evaluates v before k; _self_stmt evaluates in argument order).
+                        if not (self.method and [(a_, v_) for a_, v_, _ in self.fun.state] == [(obj, obj)]):
+                            _bad("%s[..] = ..: %r is not the object (the one state variable) of this method" % (obj, obj), s)
+                        self.pure(t.slice, env, cand.args[0] if cand.args else None)
+                        self.pure(s.value, env, cand.args[1] if len(cand.args) > 1 else None)
+                        fake = ast.copy_location(ast.Call(
+                            func=ast.Attribute(value=ast.Name(id=obj, ctx=ast.Load()), attr="__setitem__", ctx=ast.Load()),
+                            args=[t.slice, s.value], keywords=[]), s)
+                        return self._self_stmt(cand, None, fake, env, nxt, s)
+                    if not (isinstance(cand, Call) and cand.mutates and len(cand.args) == 3 and cand.ret == "unit"):
+                        _bad("item assignment on %r needs a mutating \"<%s>.__setitem__\" of three arguments returning unit"
+                             % (oty, oty[1]), s)
+                    v = self.expr(s.value, env, cand.args[2])
+                    kx = self.expr(t.slice, env, cand.args[1])
+                    app = "%s %s %s %s" % (cand.coq, coerce(cname(obj), oty, cand.args[0], s),
+                                           coerce(kx.text, kx.ty, cand.args[1], s), coerce(v.text, v.ty, cand.args[2], s))
+                    rv, rr = self.tmp(), self.tmp()
+                    body = "let %s := %s in %s" % (cname(obj), coerce(rr, cand.args[0], self.declared(obj, s), s), nxt(env))
+                    if cand.monadic:
+                        pr = self.tmp()
+                        return self.swrap(v.pre + kx.pre + [(pr, app)], "(let '(%s, %s) := %s in %s)" % (rv, rr, pr, body))
+                    return self.swrap(v.pre + kx.pre, "(let '(%s, %s) := %s in %s)" % (rv, rr, app, body))
                 if not (isinstance(oty, tuple) and oty[0] == "list"):
                     _bad("item assignment on %r" % (oty,), s)
                 if isinstance(t.slice, ast.Slice):
@@ -1063,17 +1313,117 @@ class FunTr:
             return self._while(s, rest, env, k, ctx)
         if isinstance(s, ast.For):
             return self._for(s, rest, env, k, ctx)
+        if isinstance(s, ast.Try):
+            return self._try(s, rest, env, k, ctx)
         _bad("statement %s" % type(s).__name__, s)
 
+    # kinds (Lib/Base.err) that `except <class>` certainly catches / may or may not catch.  A kind stands for several
+    # classes (harness.core.err_kind: the first class of the MRO that has a kind): FormatError covers
+    # MachineReadableFormatError (a ValueError) and NotMachineReadableError (not one), IOError covers
+    # io.UnsupportedOperation (an OSError AND a ValueError).  An exception of an undecidable kind that reaches the
+    # handler ends the translated function with OutOfFuel ("outside what is rendered faithfully"): the tie theorem
+    # has no such case, so it has to prove that this never happens.
+    CATCHES = {"ValueError": (("ValueError",), ("FormatError", "IOError")), "TypeError": (("TypeError",), ()),
+               "KeyError": (("KeyError",), ()), "IndexError": (("IndexError",), ())}
+
+    def _try(self, s, rest, env, k, ctx):
+        """try: B  except (E1, E2): H   in METHOD MODE.  B runs on the current state; it may raise.  On an exception the
+        handlers are tried in order by exception kind; the handler body runs on the STATE REACHED AT THE RAISE POINT
+        (what `MErr e st` carries — Python keeps the partial effects), any other kind propagates with that state.
+        Restrictions (fail closed): no else/finally, no `as` name, no bare except; B contains no return, yield, loop,
+        nested try or function, no break/continue, and (re)binds NO local variable — the values of locals at the
+        raise point are not carried by `MErr`, so H and what follows see the locals as they were before the try."""
+        if not self.method or self.fun.generator:
+            _bad("try/except is supported in method mode only", s)
+        if s.orelse or s.finalbody or not s.handlers:
+            _bad("try with else/finally (or without a handler)", s)
+        for b in s.body:
+            for m in ast.walk(b):
+                if isinstance(m, (ast.Return, ast.Yield, ast.YieldFrom, ast.While, ast.For, ast.Try, ast.FunctionDef,
+                                  ast.Lambda, ast.Break, ast.Continue, ast.With, ast.Delete, ast.NamedExpr)):
+                    _bad("%s inside a try body" % type(m).__name__, m)
+        stvars = [v for _, v, _ in self.fun.state]
+        loc = [v for v in self.assigned(s.body) if v not in stvars]
+        if loc:
+            _bad("the try body (re)binds local variables %r: their values at the raise point would be lost" % loc, s)
+        arms, seen = [], set()
+        for h in s.handlers:
+            if h.type is None or h.name is not None:
+                _bad("bare except / except … as name", h)
+            classes = h.type.elts if isinstance(h.type, ast.Tuple) else [h.type]
+            sure, maybe = [], []
+            for c in classes:
+                cn = ast.unparse(c)
+                if cn not in self.CATCHES:
+                    _bad("except %s: no table of the kinds it catches" % cn, h)
+                sure += [x for x in self.CATCHES[cn][0] if x not in sure]
+                maybe += [x for x in self.CATCHES[cn][1] if x not in maybe]
+            arms.append((h, [x for x in sure if x not in seen], [x for x in maybe if x not in sure and x not in seen]))
+            seen.update(sure)
+            seen.update(maybe)
+        after = lambda env2: self.block(rest, env2, k, ctx)   # noqa: E731
+        env_st = dict(env)
+        for _, v, t in self.fun.state:
+            env_st[v] = t
+        if any(self.falls_through(h.body) for h in s.handlers):
+            pfx, kk = self.join(env_st, self.assigned(s.body) + sum((self.assigned(h.body) for h in s.handlers), []), after)
+        else:
+            pfx, kk = "", after
+        body = self.block(s.body, env, lambda e: self.ok("tt"), {})     # : mres unit <state>
+        stv, ev = self.tmp(), self.tmp()
+        cases = ""
+        for h, sure, maybe in arms:
+            if sure:
+                cases += "| %s => %s " % (" | ".join(sure), self.block(h.body, env_st, kk, ctx))
+            if maybe:
+                cases += "| %s => %s " % (" | ".join(maybe), self.err("OutOfFuel"))
+        return "(%smatch %s with MOk _ %s => let '%s := %s in %s | MErr %s %s => let '%s := %s in (match %s with %s| _ => %s end) end)" % (
+            pfx, body, stv, self.st_tuple(), stv, kk(env_st), ev, stv, self.st_tuple(), stv, ev, cases,
+            "MErr %s %s" % (ev, self.st_tuple()))
+
+    def _hook_call(self, func_src, attr_node, extra):
+        """The call `<func_src>("<attribute name>", *extra)` that an attribute read/assignment served by
+        __getattr__/__setattr__ stands for (Module.attr_hooks)."""
+        call = ast.Call(func=ast.parse(func_src, mode="eval").body, args=[ast.Constant(value=attr_node.attr)] + list(extra),
+                        keywords=[])
+        ast.copy_location(call, attr_node)
+        for m in ast.walk(call.func):
+            ast.copy_location(m, attr_node)
+        ast.copy_location(call.args[0], attr_node)
+        return call
+
     def _selfcall(self, call):
-        """`self.m(args)` where the spec renders "self.m" by a Call with `selfmethod` -> that Call, else None."""
+        """`self.m(args)` where the spec renders "self.m" by a Call with `selfmethod` (or a hand-written primitive on
+        the object's state, `stateprim`) -> that Call, else None."""
         if not isinstance(call, ast.Call):
             return None
         c = self.mod.calls.get(ast.unparse(call.func))
-        return c if isinstance(c, Call) and c.selfmethod else None
+        return c if isinstance(c, Call) and (c.selfmethod or c.stateprim) else None
+
+    def _stprim_stmt(self, cand, target, call, env, nxt, node):
+        """[target =] f(args) for a hand-written primitive on the object's state (Call.stateprim)."""
+        if not self.method:
+            _bad("%s: a primitive on the object's state needs method mode" % ast.unparse(call.func), node)
+        if call.keywords or len(call.args) != len(cand.args) or any(isinstance(a, ast.Starred) for a in call.args):
+            _bad("arguments of %s" % ast.unparse(call), node)
+        es = [self.expr(a, env, w) for a, w in zip(call.args, cand.args)]
+        texts = [coerce(e.text, e.ty, w, node) for e, w in zip(es, cand.args)]
+        app = " ".join([cand.coq] + [cname(g) for g, _ in self.fun.ghost] + [cname(v) for _, v, _ in self.fun.state] + texts)
+        rv, stv, ev = self.tmp(), self.tmp(), self.tmp()
+        env2 = dict(env)
+        for _, v, t in self.fun.state:
+            env2[v] = t
+        lets = ""
+        if target is not None:
+            lets, env2 = self.bind(target, E([], rv, cand.ret), env2, node)
+        body = "(match %s with MErr %s %s => MErr %s %s | MOk %s %s => let '%s := %s in %s%s end)" % (
+            app, ev, stv, ev, stv, rv, stv, self.st_tuple(), stv, lets, nxt(env2))
+        return self.swrap(sum((e.pre for e in es), []), body)
 
     def _self_stmt(self, cand, target, call, env, nxt, node):
         """[target =] self.m(args): run the translated method `cand.coq` of the same object on the current state."""
+        if cand.stateprim:
+            return self._stprim_stmt(cand, target, call, env, nxt, node)
         fs = [f for f in self.mod.funs if f.qual == cand.selfmethod and f.coq == cand.coq]
         if len(fs) != 1 or not self.method:
             _bad("%s: no translated method %s (%s) in this module / the caller is not in method mode"
@@ -1095,7 +1445,12 @@ class FunTr:
                 _bad("%s: parameter %r is not given and has no default" % (ast.unparse(call), p), node)
             d = self.pure(dflt[p], {}, ty)
             texts.append(coerce(d.text, d.ty, ty, node))
-        app = " ".join([f.coq] + [cname(g) for g, _ in self.fun.ghost] + [cname(v) for _, v, _ in self.fun.state] + texts)
+        fl = []
+        if f.rec_group:     # a method of a recursion group: the decreased fuel inside the group, its entry fuel outside
+            if self.fun.rec_group != f.rec_group and not f.rec_fuel:
+                _bad("%s belongs to the recursion group %r and has no rec_fuel for callers outside it" % (f.qual, f.rec_group), node)
+            fl = ["fuel" if self.fun.rec_group == f.rec_group else "(%s)" % f.rec_fuel]
+        app = " ".join([f.coq] + fl + [cname(g) for g, _ in self.fun.ghost] + [cname(v) for _, v, _ in self.fun.state] + texts)
         rv, stv, ev = self.tmp(), self.tmp(), self.tmp()
         env2 = dict(env)
         for _, v, t in self.fun.state:
@@ -1127,9 +1482,22 @@ class FunTr:
         if alts is None:
             return None
         alts = alts if isinstance(alts, (list, tuple)) else [alts]
-        for cand in alts:
-            if cand.mutates and len(cand.args) == len(call.args) + 1:
-                return cand, var, call.args, opt
+        fits = [cand for cand in alts if cand.mutates and len(cand.args) == len(call.args) + 1]
+        if len(fits) > 1:
+            # overloads (e.g. one rendering per asserted ("literal", …) argument): the first whose arguments translate
+            for cand in fits:
+                saved_tmp = self.ntmp
+                try:
+                    for a, w in zip(call.args, cand.args[1:]):
+                        e = self._arg(a, env, w)
+                        coerce(e.text, e.ty, w, call)
+                    return cand, var, call.args, opt
+                except ExtractError:
+                    pass
+                finally:
+                    self.ntmp = saved_tmp
+        for cand in fits:       # (a single rendering, or none fits: _mut_stmt reports why)
+            return cand, var, call.args, opt
         return None
 
     def _mut_stmt(self, mc, target, env, nxt, node):
@@ -1140,7 +1508,7 @@ class FunTr:
             u = self.tmp()
             pre.append((u, "tr_unwrap %s" % rtext))
             rtext, rty = u, rty[1]
-        es = [self.expr(a, env, w) for a, w in zip(argn, cand.args[1:])]
+        es = [self._arg(a, env, w) for a, w in zip(argn, cand.args[1:])]
         texts = [coerce(rtext, rty, cand.args[0], node)] + \
                 [coerce(e.text, e.ty, w, node) for e, w in zip(es, cand.args[1:])]
         pre = pre + sum((e.pre for e in es), [])
@@ -1159,10 +1527,11 @@ class FunTr:
         return self.swrap(pre, "(let '(%s, %s) := %s in %s%s)" % (rv, rr, app, lets, nxt(env2)))
 
     # join points -------------------------------------------------------------
-    def join(self, env, assigned, k_after, narrowed=None):
+    def join(self, env, assigned, k_after, narrowed=None, fresh=()):
         """Returns (prefix defining the join function, call(env_branch) -> text).
-        narrowed: {variable: type} overriding the declared type (opt-in flow typing, see Fun.narrow)."""
-        vs = [v for v in self.order if v in assigned and v in env]
+        narrowed: {variable: type} overriding the declared type (opt-in flow typing, see Fun.narrow).
+        fresh: variables not defined before that every incoming edge defines (opt-in, see Fun.join_defines)."""
+        vs = [v for v in self.order if v in assigned and (v in env or v in fresh)]
         # variables assigned in the branches but not defined before are NOT visible afterwards (fail closed on use)
         self.njoin += 1
         name = "k%d_" % self.njoin
@@ -1176,6 +1545,9 @@ class FunTr:
         params = " ".join("(%s : %s)" % (cname(v), ty_coq(pty[v])) for v in vs)
 
         def call(e):
+            for v in vs:
+                if v not in e:      # `del v` on one path into the join
+                    _bad("variable %r is not defined on every path into a join point" % v)
             return "%s %s" % (name, " ".join(coerce(cname(v), e[v], pty[v]) for v in vs))
         return "let %s := (fun %s => %s) in " % (name, params, body), call
 
@@ -1194,7 +1566,17 @@ class FunTr:
                 else:
                     brs = [(s.body, env), (s.orelse, env)]
                 narrowed = self._narrowed(self._probe(brs, ctx), asg)
-            pfx, call = self.join(env, asg, after, narrowed)
+            fresh = ()
+            if self.fun.join_defines and any(v not in env and v in self.decl for v in asg):
+                if nar:
+                    e_some = dict(env)
+                    e_some[nar[0]] = env[nar[0]][1]
+                    brs = [(s.body, env), (s.orelse, e_some)] if nar[1] else [(s.body, e_some), (s.orelse, env)]
+                else:
+                    brs = [(s.body, env), (s.orelse, env)]
+                ends = self._probe(brs, ctx)      # the environments at every normal end of either branch
+                fresh = tuple(v for v in asg if v not in env and v in self.decl and ends and all(v in e for e in ends))
+            pfx, call = self.join(env, asg, after, narrowed, fresh)
             kk = call
         else:
             pfx, kk = "", after
@@ -1205,7 +1587,8 @@ class FunTr:
             b_none, b_some = (s.body, s.orelse) if none_first else (s.orelse, s.body)
             t_none = self.block(b_none, env, kk, ctx)
             t_some = self.block(b_some, env_some, kk, ctx)
-            return "(%smatch %s with None => %s | Some %s => %s end)" % (pfx, cname(name), t_none, cname(name), t_some)
+            return "(%smatch %s with None => %s | Some %s => %s end)" % (
+                pfx, self._narrow_scrut(s.test, name), t_none, cname(name), t_some)
         c = self.cond(s.test, env)
         t_then = self.block(s.body, env, kk, ctx)
         t_else = self.block(s.orelse, env, kk, ctx)
@@ -1272,7 +1655,50 @@ class FunTr:
         self.defs.append(text)
         return "(%s (%s)%s %s)" % (name, self.fun.fuel[idx], kxval(), args(env))
 
+    def _enum_shared(self, s, env):
+        """`for i, x in enumerate(IT[, start=K])` where IT is a SHARED iterator variable (("iter", T)) that the body
+        may advance too: the enumerate object only counts what it takes from IT, one item per iteration.  Rendered as
+            enumN__ = K;  for x in IT: i = enumN__; enumN__ = enumN__ + 1; <body>
+        (the counter is hidden state of the enumerate object: a fresh variable).  None if `s` is not of that shape."""
+        it = s.iter
+        if not (isinstance(it, ast.Call) and ast.unparse(it.func) == "enumerate" and "enumerate" not in self.mod.calls
+                and len(it.args) == 1 and isinstance(it.args[0], ast.Name) and it.args[0].id in env
+                and isinstance(env[it.args[0].id], tuple) and env[it.args[0].id][0] == "iter"
+                and len(it.keywords) <= 1 and all(kw.arg == "start" for kw in it.keywords)
+                and isinstance(s.target, ast.Tuple) and len(s.target.elts) == 2
+                and all(isinstance(x, ast.Name) for x in s.target.elts)):
+            return None
+        for m in ast.walk(ast.Module(body=list(s.body) + list(s.orelse), type_ignores=[])):
+            # the enumerate object keeps the iterator OBJECT: rebinding the variable in the body would not redirect it
+            if isinstance(m, ast.Name) and m.id == it.args[0].id and not isinstance(m.ctx, ast.Load):
+                _bad("the loop body rebinds %r, the iterator that enumerate() holds" % m.id, s)
+        cnt = "enum%d__" % (self.nloop + 1)
+        mine = self.__dict__.setdefault("_enum_cnts", set())     # (a dry run, _probe, may come here a second time)
+        if cnt not in mine:
+            if cnt in self.decl:
+                _bad("name clash with the enumerate counter %s" % cnt, s)
+            mine.add(cnt)
+            self.decl[cnt] = "Z"
+            self.order.append(cnt)
+        start = it.keywords[0].value if it.keywords else ast.Constant(value=0)
+        ld = lambda: ast.Name(id=cnt, ctx=ast.Load())    # noqa: E731
+        init = ast.Assign(targets=[ast.Name(id=cnt, ctx=ast.Store())], value=start)
+        head = [ast.Assign(targets=[ast.Name(id=s.target.elts[0].id, ctx=ast.Store())], value=ld()),
+                ast.Assign(targets=[ast.Name(id=cnt, ctx=ast.Store())],
+                           value=ast.BinOp(left=ld(), op=ast.Add(), right=ast.Constant(value=1)))]
+        loop = ast.For(target=s.target.elts[1], iter=it.args[0], body=head + list(s.body), orelse=s.orelse)
+        out = [ast.copy_location(init, s), ast.copy_location(loop, s)]
+        for x in out:
+            for m in ast.walk(x):
+                if not hasattr(m, "lineno"):
+                    ast.copy_location(m, s)
+            ast.fix_missing_locations(x)
+        return out
+
     def _for(self, s, rest, env, k, ctx):
+        des = self._enum_shared(s, env)
+        if des is not None:
+            return self.block(des + list(rest), env, k, ctx)
         self.nloop += 1
         idx = self.nloop
         name = "%s_loop%d" % (self.fun.coq, idx)
@@ -1286,6 +1712,18 @@ class FunTr:
             # the iterable is evaluated once, eagerly: only faithful if the body does not change what is
             # being iterated over — except `N[i] = v` at the current index of `for i, x in enumerate(N)`
             names = {m.id for m in ast.walk(s.iter) if isinstance(m, ast.Name)}
+            # `X.m(..)` that the spec renders BY ITS SOURCE TEXT "X.m" as a function that does not take X (a
+            # classmethod / static helper reached through self): its value does not depend on X's state
+            recv_only = {m.func.value.id for m in ast.walk(s.iter)
+                         if isinstance(m, ast.Call) and isinstance(m.func, ast.Attribute)
+                         and isinstance(m.func.value, ast.Name) and ast.unparse(m.func) in self.mod.calls}
+            for nm in recv_only:
+                uses = sum(1 for m in ast.walk(s.iter) if isinstance(m, ast.Name) and m.id == nm)
+                asrecv = sum(1 for m in ast.walk(s.iter) if isinstance(m, ast.Call) and isinstance(m.func, ast.Attribute)
+                             and isinstance(m.func.value, ast.Name) and m.func.value.id == nm
+                             and ast.unparse(m.func) in self.mod.calls)
+                if uses == asrecv:
+                    names.discard(nm)
             for nm in names & set(self.assigned(s.body)):
                 ok = (isinstance(s.iter, ast.Call) and ast.unparse(s.iter.func) == "enumerate" and len(s.iter.args) == 1
                       and isinstance(s.iter.args[0], ast.Name) and s.iter.args[0].id == nm
@@ -1310,6 +1748,14 @@ class FunTr:
                 if not ok:
                     _bad("the loop body changes %r, which the loop iterates over" % nm, s)
             it = self.expr(s.iter, env)
+            if isinstance(it.ty, tuple) and it.ty[0] == "coq":
+                # iteration over an opaque object: the spec's primitive "<type>.__iter__" gives the items in the order
+                # in which the object yields them (pure, one argument, a list) — evaluated once, like any iterable here
+                g = self.mod.calls.get("<%s>.__iter__" % it.ty[1])
+                if not (isinstance(g, Call) and len(g.args) == 1 and not g.monadic and not g.mutates
+                        and isinstance(g.ret, tuple) and g.ret[0] == "list"):
+                    _bad("iteration over %r needs a pure \"<%s>.__iter__\" returning a list" % (it.ty, it.ty[1]), s)
+                it = E(it.pre, "(%s %s)" % (g.coq, coerce(it.text, it.ty, g.args[0], s)), g.ret)
             ety = self._elem_ty(it.ty, s)
         # target
         env_body = dict(env_in)
@@ -1420,6 +1866,13 @@ class FunTr:
         body = self.block(self.node.body, env, k_end, {})
         params = " ".join("(%s : %s)" % (cname(p), ty_coq(t)) for p, t in
                           self.fun.ghost + [(v, t) for _, v, t in self.fun.state] + self.fun.params)
+        if self.fun.rec_group:
+            # a member of a recursion group: one clause of a mutual Fixpoint on explicit fuel (joined by translate_module)
+            if self.defs or "fuel" in self.decl or not self.method:
+                _bad("%s: a method of a recursion group must be in method mode, without loops and without a "
+                     "variable named fuel" % self.fun.qual, self.node)
+            return "Fixpoint %s (fuel : nat) %s {struct fuel} : %s :=\n  match fuel with\n  | O => %s\n  | S fuel =>\n    %s%s\n  end.\n" % (
+                self.fun.coq, params, self.rtype(), self.err("OutOfFuel"), pre_lets, body)
         main = "Definition %s %s : %s :=\n  %s%s.\n" % (self.fun.coq, params, self.rtype(), pre_lets, body)
         return "\n".join(self.defs + [main])
 
@@ -1446,10 +1899,27 @@ def translate_module(repo, mod):
         out.append("(* %s = re.compile(%s%s) — modelled by a hand-written leaf, compared with the live pattern on every run *)\n"
                    % (qual, re.sub(r"\*\)", "* )", repr(got)), (", " + flags) if flags else ""))
     out.append("\n")
-    for fun in mod.funs:
-        node = find_def(tree, fun.qual)
-        tr = FunTr(mod, fun, node)
-        out.append("(* %s *)\n" % fun.qual)
-        out.append(tr.translate())
-        out.append("\n")
+    global _COERCIONS
+    _COERCIONS = list(mod.coercions)
+    try:
+        grp = []        # clauses of the mutual Fixpoint being collected (Fun.rec_group)
+        for i, fun in enumerate(mod.funs):
+            node = find_def(tree, fun.qual)
+            tr = FunTr(mod, fun, node)
+            if fun.rec_group:
+                if any(f.rec_group == fun.rec_group for f in mod.funs[:i]) and not grp:
+                    _bad("the methods of the recursion group %r do not stand next to each other" % fun.rec_group)
+                grp.append((fun.qual, tr.translate()))
+                if i + 1 < len(mod.funs) and mod.funs[i + 1].rec_group == fun.rec_group:
+                    continue
+                out.append("(* %s — mutually recursive, on explicit fuel *)\n" % ", ".join(q for q, _ in grp))
+                out.append("\nwith ".join([grp[0][1][:-2]] + [t[len("Fixpoint "):-2] for _, t in grp[1:]]) + ".\n")
+                out.append("\n")
+                grp = []
+                continue
+            out.append("(* %s *)\n" % fun.qual)
+            out.append(tr.translate())
+            out.append("\n")
+    finally:
+        _COERCIONS = []
     return "".join(out)
